@@ -2,7 +2,7 @@
 From Coq Require Import NArith List Bool Sorting.Permutation Sorting.Sorted.
 From DV Require Import Base.Outcome Base.Bytes Base.Lex Base.Names C11.Sha C17.Model
   C12.Gen C12.Model C12.Digest C12.Spec C12.ProofsSort C12.ProofsSigned C12.ProofsInj
-  C12.ProofsKey C12.ProofsCrypto.
+  C12.ProofsKey C12.ProofsCrypto C12.KeyModel C12.ProofsRsa C12.ZoneModel C12.ProofsZone C12.ProofsC04 C12.ProofsC05.
 Import ListNotations.
 Local Open Scope N_scope.
 
@@ -165,3 +165,88 @@ Theorem C12_wildcard_closest_encloser : forall labels owner,
   if labels <? N.of_nat (length owner) then Some (rightmost (N.to_nat labels) owner) else None.
 Proof. exact wildcard_closest_encloser_spec. Qed.
 Print Assumptions C12_wildcard_closest_encloser.
+
+Theorem C12_rsa_key_roundtrip : forall e n, rsa_part_ok e -> rsa_part_ok n ->
+  exists pk, rsa_encode e n = Ok pk /\ rsa_exponent_modulus pk 0 = Ok (e, n).
+Proof. exact rsa_roundtrip. Qed.
+Print Assumptions C12_rsa_key_roundtrip.
+
+Theorem C12_rsa_parse_sound : forall pk min_len e n,
+  rsa_exponent_modulus pk min_len = Ok (e, n) ->
+  rsa_part_ok e /\ rsa_part_ok n /\ min_len <= len n /\
+  (pk = len e :: e ++ n \/ exists hi lo, pk = 0 :: hi :: lo :: e ++ n /\ of_be16 hi lo = len e /\ 1 <= hi).
+Proof. exact rsa_parse_sound. Qed.
+Print Assumptions C12_rsa_parse_sound.
+
+Theorem C12_key_size_of_parsed_key : forall alg pk min_len e n,
+  memN alg ks_rsa_algorithms = true ->
+  rsa_exponent_modulus pk min_len = Ok (e, n) ->
+  exists f t, n = f :: t /\ key_size alg pk = Ok (len n * 8 - leading_zeros8 f) /\
+              (len n - 1) * 8 < len n * 8 - leading_zeros8 f <= len n * 8.
+Proof. exact key_size_of_parsed. Qed.
+Print Assumptions C12_key_size_of_parsed_key.
+
+Theorem C12_key_parsing_total : forall alg pk min_len,
+  no_panic (key_size alg pk) /\ no_panic (rsa_exponent_modulus pk min_len).
+Proof. exact key_parsing_total. Qed.
+Print Assumptions C12_key_parsing_total.
+
+Theorem C12_zone_signed_sound : forall apex k recs o t,
+  In (o, t) (sign_zone apex k recs) ->
+  t <> 46 /\
+  exists g, In g (owner_groups (skip_before apex recs)) /\ In (o, t) g /\
+            ends_with (group_owner g) apex = true /\
+            (is_zone_cut apex g = true -> t = 43 \/ t = 47) /\
+            (name_eqb (group_owner g) apex = true -> t <> 48 /\ t <> 59 /\ t <> 60).
+Proof. exact zone_signed_sound. Qed.
+Print Assumptions C12_zone_signed_sound.
+
+Theorem C12_zone_delegation : forall apex k cut o t g' mid rest,
+  ends_with o apex = true ->
+  match cut with Some c => ends_with o c | None => false end = false ->
+  is_zone_cut apex ((o, t) :: g') = true ->
+  Forall (fun g => g <> [] /\ ends_with (group_owner g) apex = true /\ ends_with (group_owner g) o = true) mid ->
+  sign_groups apex k cut (((o, t) :: g') :: mid ++ rest) =
+  select_rrsets true o apex k ((o, t) :: g') ++ sign_groups apex k (Some o) rest.
+Proof. exact delegation_signed. Qed.
+Print Assumptions C12_zone_delegation.
+
+Theorem C12_zone_authoritative_group_signed : forall apex k cut g rest t,
+  g <> [] -> ends_with (group_owner g) apex = true ->
+  match cut with Some c => ends_with (group_owner g) c | None => false end = false ->
+  In t (map snd g) ->
+  rfc_signed_here (is_zone_cut apex g) (name_eqb (group_owner g) apex) t = true -> (0 < k)%nat ->
+  exists o, In (o, t) (sign_groups apex k cut (g :: rest)).
+Proof. exact authoritative_group_signed. Qed.
+Print Assumptions C12_zone_authoritative_group_signed.
+
+Theorem C12_subtree_is_contiguous : forall c a x b,
+  ends_with a c = true -> ends_with b c = true ->
+  name_cmp a x <> Gt -> name_cmp x b <> Gt -> ends_with x c = true.
+Proof. exact subtree_is_contiguous. Qed.
+Print Assumptions C12_subtree_is_contiguous.
+
+Theorem C12_zone_selection_is_rfc4035 : forall apex k gs,
+  Forall (fun g => g <> [] /\ ends_with (group_owner g) apex = true) gs ->
+  StronglySorted nle (map group_owner gs) ->
+  sign_groups apex k None gs = spec_groups apex k [] gs.
+Proof. exact zone_selection_is_rfc4035. Qed.
+Print Assumptions C12_zone_selection_is_rfc4035.
+
+Theorem C12_code_order_is_octet_order : forall s l, one_schema l ->
+  signed_data_code_order s l = signed_data s (map c_to_rr l) /\
+  (forall a b, In a l -> In b l -> no_panic (C04.Model.fields_cmp (c_data a) (c_data b))).
+Proof. exact code_order_is_octet_order. Qed.
+Print Assumptions C12_code_order_is_octet_order.
+
+Theorem C12_embedded_name_case_is_invisible : forall a b,
+  case_variant a b -> r_rdata (t_to_rr a) = r_rdata (t_to_rr b).
+Proof. exact case_variant_same_rdata. Qed.
+Print Assumptions C12_embedded_name_case_is_invisible.
+
+Theorem C12_typed_validator_rebuilds_signer_input : forall k o t c ttl rrset inc exp s scratch,
+  valid_abs o -> uniform o t c ttl (map t_to_rr rrset) ->
+  sign_rrset k (map t_to_rr rrset) inc exp = Ok (s, scratch) ->
+  forall seen, typed_resolver_view o t c rrset seen -> signed_data s (map t_to_rr seen) = scratch.
+Proof. exact typed_validator_rebuilds_signer_input. Qed.
+Print Assumptions C12_typed_validator_rebuilds_signer_input.
